@@ -245,6 +245,8 @@ def classify(case, out):
             ks.add("accepted-but-unit-failed")
         if enq.startswith("OUT:"):
             ks.add("enqueued-outside-scratch-root")
+        if enq != "-":
+            ks.add("enqueued-text-canonical" if all(e.endswith(":c") for e in enq.split(",")) else "enqueued-text-NOT-canonical")
     if re.search(r"L upd/c4\d", case):
         ks.add("tree:chain>40")
     ks.add("tree:random" if ";D upd;" not in case else "tree:template")
@@ -286,7 +288,8 @@ EXTRAS = []
 
 LEVEL_TEXT = ("Theorems over every file-system tree (directories, files, symlinks incl. loops and dangling), every configured directory "
               "text, every query string: acceptance implies that the enqueued path is the realpath of dir/file, is not a symlink and lies "
-              "below the resolved directory through real directory entries only; every other request is a 400 with an empty queue; "
+              "below the resolved directory through real directory entries only, and the path TEXT put on the queue is byte for byte its own "
+              "canonicalisation (observed per entry next to where it resolves); every other request is a 400 with an empty queue; "
               "kernel-checked, axiom-free. The model (query parsing, percent-decoding, push, realpath with its 40-link budget, ancestors) "
               "is tied to the real Processor and the real libc on a real directory tree by differential execution on every run.")
 DESIGN_REF = "DESIGN.md section 6, C20"
